@@ -1213,6 +1213,42 @@ func stressFuture(seed int64, scale int) int {
 		cancelCtx()
 		v.count("executor-reused-after-cancel")
 	}
+	// a Cancel that lands while a hedged attempt's result has been produced but not yet picked up by the coordinating loop (the loop is
+	// busy in the OnHedge listener, which is where the Cancel comes from): the execution was not done, so it reports the cancellation
+	for i := 0; i < 10*scale; i++ {
+		sent := make(chan struct{})
+		ready := make(chan struct{})
+		var once sync.Once
+		var r failsafe.ExecutionResult[int]
+		var calls atomic.Int32
+		wasDone := false
+		hp := hedgepolicy.BuilderWithDelay[int](300 * time.Microsecond).WithMaxHedges(1).
+			CancelIf(func(int, error) bool { once.Do(func() { close(sent) }); return true }).
+			OnHedge(func(failsafe.ExecutionEvent[int]) {
+				select {
+				case <-sent: // the first attempt's result has been classified: it is being handed over
+				case <-time.After(100 * time.Millisecond):
+				}
+				time.Sleep(100 * time.Microsecond)
+				<-ready
+				wasDone = r.IsDone()
+				r.Cancel()
+			}).Build()
+		r = failsafe.NewExecutor[int](hp).GetWithExecutionAsync(func(e failsafe.Execution[int]) (int, error) {
+			if calls.Add(1) == 1 {
+				time.Sleep(700 * time.Microsecond) // outlasts the hedge delay: the loop is inside OnHedge when this result is produced
+				return 1, nil
+			}
+			<-e.Canceled()
+			return 2, nil
+		})
+		close(ready)
+		val, err := r.Get()
+		v.count("cancel-while-result-in-flight")
+		if !wasDone && !errors.Is(err, failsafe.ErrExecutionCanceled) {
+			v.add(fmt.Sprintf("Cancel took effect before the hedged execution completed (IsDone was false), yet Get returned (%d, %v)", val, err))
+		}
+	}
 	return v.report("future", runs)
 }
 
